@@ -6,6 +6,7 @@ package main
 
 import (
 	"fmt"
+	"strings"
 	"go/ast"
 	"go/types"
 )
@@ -23,6 +24,24 @@ func (st *State) stdlibSpecial(fn *types.Func, recv *Val, args []Val, call *ast.
 	name := fullName(fn)
 	note := func() { fc.noteAssumption("assumed model of dependency " + name + " (engine/stdlib.go)") }
 	i32 := types.Typ[types.Int32]
+	if strings.HasPrefix(name, "sync/atomic.") && fc.isRG() && fc.inlineDepth == 0 && !st.rgInAtomic {
+		// rely-guarantee mode: interference first, then the atomic step, then its ghost updates and the step check
+		st.rgStabilize(call.Pos())
+		st.rgInAtomic = true
+		res, ok := st.stdlibSpecial(fn, recv, args, call)
+		st.rgInAtomic = false
+		if ok && len(res) > 0 {
+			st.ghost["last_ret"] = res[0]
+		}
+		if call != fc.topCall {
+			if ord, has := fc.callOrd[call]; has {
+				st.runAnchor(fmt.Sprintf("after-call%d", ord), call.End())
+			} else {
+				st.rgCheckStep("after-call?", call.End())
+			}
+		}
+		return res, ok
+	}
 	switch name {
 	case "sync.RWMutex.Lock", "sync.RWMutex.Unlock", "sync.RWMutex.RLock", "sync.RWMutex.RUnlock", "sync.Mutex.Lock", "sync.Mutex.Unlock":
 		// lock discipline: the lock state is tracked per path, keyed by the text of the mutex expression
@@ -113,11 +132,11 @@ func (st *State) stdlibSpecial(fn *types.Func, recv *Val, args []Val, call *ast.
 	case "sync/atomic.LoadUint32", "sync/atomic.LoadInt32", "sync/atomic.LoadInt64", "sync/atomic.LoadUint64", "sync/atomic.LoadPointer":
 		fc.noteAssumption("sync/atomic operations are given their sequential meaning here (single goroutine); interleavings are the subject of the concurrency checks")
 		return []Val{st.deref(args[0], call.Pos(), exprStr(call.Args[0]))}, true
-	case "sync/atomic.StoreUint32", "sync/atomic.StoreInt32", "sync/atomic.StoreInt64", "sync/atomic.StoreUint64":
+	case "sync/atomic.StoreUint32", "sync/atomic.StoreInt32", "sync/atomic.StoreInt64", "sync/atomic.StoreUint64", "sync/atomic.StorePointer":
 		fc.noteAssumption("sync/atomic operations are given their sequential meaning here (single goroutine); interleavings are the subject of the concurrency checks")
 		st.storeThrough(args[0], args[1], call.Pos(), exprStr(call.Args[0]))
 		return nil, true
-	case "sync/atomic.CompareAndSwapUint32", "sync/atomic.CompareAndSwapInt32", "sync/atomic.CompareAndSwapInt64", "sync/atomic.CompareAndSwapUint64":
+	case "sync/atomic.CompareAndSwapUint32", "sync/atomic.CompareAndSwapInt32", "sync/atomic.CompareAndSwapInt64", "sync/atomic.CompareAndSwapUint64", "sync/atomic.CompareAndSwapPointer":
 		fc.noteAssumption("sync/atomic operations are given their sequential meaning here (single goroutine); interleavings are the subject of the concurrency checks")
 		cur := st.deref(args[0], call.Pos(), exprStr(call.Args[0]))
 		ok := st.define("cas", "Bool", sEq(cur.S, args[1].S))
